@@ -515,6 +515,23 @@ func TestCases(t *testing.T) {
 	dir, _ = filepath.Abs(dir)
 	defer os.RemoveAll(dir)
 	outs := runChildren(child, dir, cases, smoke, res)
+	// cases the harness could not execute (a fixture did not come up in time, listener ports kept being
+	// taken) get one more try in a fresh child before they count as machinery failures
+	var again []cfgkit.Case
+	for i := range cases {
+		if o := outs[cases[i].ID]; o != nil && o.res != nil && o.res.Harness != "" {
+			again = append(again, cases[i])
+		}
+	}
+	if len(again) > 0 && len(again) <= 20+len(cases)/20 && len(res.Broken) == 0 {
+		dir2 := filepath.Join(dir, "again")
+		if err := os.MkdirAll(dir2, 0o700); err == nil {
+			for id, o := range runChildren(child, dir2, again, smoke, res) {
+				outs[id] = o
+			}
+			res.Count("harness_retries", len(again))
+		}
+	}
 	for i := range cases {
 		o := outs[cases[i].ID]
 		if o == nil {
